@@ -58,6 +58,8 @@ type dnet struct {
 	hdrLen  int
 	ecdhe   bool
 	retrans [2]int // datagrams written per direction
+	holdLeft int   // datagrams of direction 1-ed.dir still to be withheld (armed when the edit is applied)
+	withheld int   // datagrams withheld so far
 }
 
 func newDNet(ed edit) *dnet {
@@ -268,10 +270,29 @@ func (e *dend) WriteTo(p []byte, _ net.Addr) (int, error) {
 	}
 	var out []byte
 	cut := false
+	if n.holdLeft > 0 && d == n.ed.dir {
+		// the writer of the edited record writes again (its retransmission): the hold ends
+		n.holdLeft = 0
+	}
+	if n.holdLeft > 0 && d == 1-n.ed.dir {
+		// the second fault: what the reader of the edited record answers is lost until the writer
+		// of the edited record has written again (at most `holdLeft` datagrams)
+		n.holdLeft--
+		n.withheld++
+		for _, r := range recs {
+			n.seen[d] = append(n.seen[d], recInfo{raw: r, dtls: true})
+		}
+		n.cond.Broadcast()
+		return len(p), nil
+	}
 	for _, r := range recs {
 		idx := len(n.seen[d])
 		n.seen[d] = append(n.seen[d], recInfo{raw: r, dtls: true})
+		was := n.applied
 		piece, stop := n.route(d, idx, r)
+		if !was && n.applied && n.ed.hold > 0 && d == n.ed.dir {
+			n.holdLeft = 8 * n.ed.hold
+		}
 		out = append(out, piece...)
 		if stop {
 			cut = true
@@ -323,6 +344,9 @@ func dInjected(kind string, seq int) []byte {
 		return mk(22, nil)
 	case "ccs":
 		return mk(20, []byte{1})
+	case "hsd":
+		// a whole, well-formed handshake message (ServerHelloDone, message_seq 9, unfragmented)
+		return mk(22, []byte{14, 0, 0, 0, 0, 9, 0, 0, 0, 0, 0, 0})
 	case "app":
 		return mk(23, []byte("hello"))
 	}
@@ -527,6 +551,7 @@ func runDTLCP(cf config, ed edit) outcome {
 	n.mu.Lock()
 	out.stalled = n.stalled
 	out.applied = n.applied
+	out.held = n.withheld
 	n.mu.Unlock()
 	switch {
 	case cp != "":
